@@ -363,6 +363,60 @@ def gen_filter_tables(meta):
     return {'FilterTables.lean': '\n'.join(L)}
 
 
+def gen_indent_tables(meta):
+    """split words of ReindentFilter._next_token (a local tuple) and AlignedIndentFilter (class attributes), each compiled
+    the way Token.match(..., regex=True) does for a keyword token: re.compile(v, re.IGNORECASE), used with .search"""
+    from sqlparse.filters import reindent, aligned_indent
+    from sqlparse import sql, tokens
+    rt = RegexTranslator('iatom')
+
+    def tr(v):
+        if not isinstance(v, str):
+            raise TranslateError('split word is not a string: %r' % (v,))
+        c = re.compile(v, re.IGNORECASE)
+        return rt.pattern(c.pattern, c.flags)
+
+    rsplit = _local_value(reindent.ReindentFilter._next_token, 'split_words', reindent)
+    m_split = _find_tuple_names(reindent.ReindentFilter._next_token, 'm_split')
+    if m_split != ['T.Keyword', 'split_words', 'True']:
+        raise TranslateError('ReindentFilter._next_token: m_split changed: %r' % (m_split,))
+    A = aligned_indent.AlignedIndentFilter
+    a_split = _find_tuple_names(A._next_token, 'split_words')
+    if a_split != ['T.Keyword', 'self.split_words', 'True']:
+        raise TranslateError('AlignedIndentFilter._next_token: split_words changed: %r' % (a_split,))
+    if not isinstance(A.join_words, str) or not isinstance(A.by_words, str):
+        raise TranslateError('AlignedIndentFilter.join_words / by_words are not strings')
+    L = ['import SqlModel.Regex', 'import SqlModel.Tree', 'set_option maxRecDepth 200000', 'namespace Sql.Gen']
+    body = []
+    body.append('/-- `split_words` of ReindentFilter._next_token: %s -/\ndef reindentSplitRes : List Re := [\n  %s]'
+                % (comment_safe(repr(rsplit)), ',\n  '.join(tr(v) for v in rsplit)))
+    body.append('/-- `AlignedIndentFilter.split_words` -/\ndef alignedSplitRes : List Re := [\n  %s]'
+                % ',\n  '.join(tr(v) for v in A.split_words))
+    body.append('/-- `AlignedIndentFilter.join_words` -/\ndef alignedJoinRe : Re := ' + tr(A.join_words))
+    body.append('/-- `AlignedIndentFilter.by_words` -/\ndef alignedByRe : Re := ' + tr(A.by_words))
+    body.append('/-- `len(\'select\')`: AlignedIndentFilter._max_kwd_len -/\ndef alignedMaxKwdLen : Nat := %d' % A()._max_kwd_len)
+    R = reindent.ReindentFilter
+    body.append('/-- `ttypes` of ReindentFilter._split_statements -/\ndef reindentStmtTTypes : TArg := '
+                + _tuple_of_ttypes(_local_value(R._split_statements, 'ttypes', reindent), 'ttypes'))
+    body.append('/-- `ttypes` of ReindentFilter._process_parenthesis -/\ndef reindentParenTTypes : TArg := '
+                + _tuple_of_ttypes(_local_value(R._process_parenthesis, 'ttypes', reindent), 'ttypes'))
+    rt.emit_atoms(L)
+    L += body
+    L.append('end Sql.Gen')
+    L.append('')
+    meta['indent_words'] = {'reindent': list(rsplit), 'aligned': list(A.split_words)}
+    return {'IndentTables.lean': '\n'.join(L)}
+
+
+def _find_tuple_names(func, name):
+    """source text of the elements of the tuple assigned to `name` inside func"""
+    from translate_tables import _find_assign
+    expr = _find_assign(func, name)
+    if not isinstance(expr, ast.Tuple):
+        raise TranslateError('%s in %s is not a tuple' % (name, func.__qualname__))
+    return [ast.unparse(e) for e in expr.elts]
+
+
 def generate():
     files, meta = {}, {}
     L = ['import SqlModel.PyVal', 'namespace Sql.Gen']
@@ -374,4 +428,5 @@ def generate():
     files['OptionTable.lean'] = '\n'.join(L)
     files.update(gen_case_tables(meta))
     files.update(gen_filter_tables(meta))
+    files.update(gen_indent_tables(meta))
     return files, {'filters': meta}
